@@ -3,6 +3,13 @@
    want intake (MessageReceived: splitWantsCancelsDenials, ClearPeerWantlist, filterOverflow,
    handleOverflow, cancels, task creation, PushTasksTruncated), NotifyNewBlocks, block removal and
    envelope construction (nextEnvelope + MessageSent), at the grain of one engine call per action.
+   An envelope is delivered in TWO calls: nextEnvelope pops the peer's tasks (they become ACTIVE in the peer
+   task queue) and builds the message (NextEnv); later the server calls MessageSent + Envelope.Sent
+   (MsgSent: the answered wants leave the ledger, the active tasks are done).  Messages, block arrivals and
+   removals may fall into the window between the two; `hold` is the envelope in flight.  A task pushed for
+   a CID with an active task is dropped unless it carries new information (taskMerger.HasNewInfo);
+   MessageSent judges every sent HAVE against the ledger entry AS IT IS THEN: a want-have that was upgraded
+   to want-block in the window stays on the want-list (its block task is queued and still owed).
 
    Model values
      Peers = 1..NP, Cids = 1..NC.  cfg.ignored \subseteq Cids are the identity / oversize CIDs (dropped at
@@ -24,7 +31,14 @@
      Dev_C36_QueueTruncation    PushTasksTruncated cuts the pushed tasks to limit - |pending| BEFORE
                                 merging, dropping tasks of accepted wants and block notifications
      Dev_C36_StaleHave          nextEnvelope sends HAVE from the queued task without re-reading the
-                                blockstore (blocks are re-read)                                        *)
+                                blockstore (blocks are re-read)
+     Dev_C36_ActiveTaskHidesBlock  a task pushed while a task of the same CID is active (its envelope is between
+                                nextEnvelope and Sent) is dropped whenever taskMerger.HasNewInfo says so, also when
+                                that envelope does NOT carry the block (it was missing when the envelope was built and
+                                has been stored again since): the want stays on the list without a task
+     Dev_C36_SentHaveDropsOwedBlock  MessageSent for a HAVE takes a want-have off the list although a BLOCK task is
+                                still queued for it (the peer asked want-block and then want-have again inside the
+                                window): the block goes out for a CID that is no longer listed, a cancel cannot stop it *)
 EXTENDS Integers, Sequences, FiniteSets, TLC, Json, SequencesExt
 
 CONSTANTS NP, NC, MaxPrio, Devs
@@ -33,10 +47,12 @@ Peers == 1..NP
 Cids  == 1..NC
 
 AllDevs  == {"Dev_C36_OverflowSortDesc", "Dev_C36_FullKeepsStale", "Dev_C36_EvictedTask",
-             "Dev_C36_QueueTruncation", "Dev_C36_StaleHave"}
+             "Dev_C36_QueueTruncation", "Dev_C36_StaleHave", "Dev_C36_ActiveTaskHidesBlock",
+             "Dev_C36_SentHaveDropsOwedBlock"}
+SentDevs == {"Dev_C36_SentHaveDropsOwedBlock"}
 RecvDevs == {"Dev_C36_OverflowSortDesc", "Dev_C36_FullKeepsStale", "Dev_C36_EvictedTask",
-             "Dev_C36_QueueTruncation"}
-AddDevs  == {"Dev_C36_QueueTruncation"}
+             "Dev_C36_QueueTruncation", "Dev_C36_ActiveTaskHidesBlock"}
+AddDevs  == {"Dev_C36_QueueTruncation", "Dev_C36_ActiveTaskHidesBlock"}
 EnvDevs  == {"Dev_C36_StaleHave"}
 
 VARIABLES cfg,     \* [limit, replace, sdh, deny, ignored, big]  (deny \in [Peers -> SUBSET Cids]: request filter)
@@ -46,8 +62,9 @@ VARIABLES cfg,     \* [limit, replace, sdh, deny, ignored, big]  (deny \in [Peer
           q,       \* [Peers -> [Cids -> task]]    pending tasks of the peer task queue
           out,     \* last envelope (+ what justified it)
           ov,      \* last overflow episode (for EvictionOrder)
-          dev      \* deviations used so far
-vars == <<cfg, bs, ledger, ghost, q, out, ov, dev>>
+          dev,     \* deviations used so far
+          hold     \* the envelope between nextEnvelope and MessageSent/Sent: [p, T (its active tasks), blocks, haves]
+vars == <<cfg, bs, ledger, ghost, q, out, ov, dev, hold>>
 
 NoE == [prio |-> -1, wt |-> "-"]
 NoT == [prio |-> -1, have |-> FALSE, wb |-> FALSE, sdh |-> FALSE]
@@ -57,6 +74,11 @@ Dom(L)  == {c \in Cids : L[c] # NoE}
 QDom(Q) == {c \in Cids : Q[c] # NoT}
 NoRaw == [c |-> 0, prio |-> -1, wt |-> "-", cancel |-> FALSE, sdh |-> FALSE]
 NoOut == [p |-> 0, blocks |-> {}, haves |-> {}, dhs |-> {}, wanted |-> {}, asked |-> {}]
+NoHold == [p |-> 0, T |-> EmptyQ, blocks |-> {}, haves |-> {}]
+\* the active tasks of peer p (popped, not yet done) with what their envelope carries; hides: as-built rule
+Act(p, D) == IF hold.p = p THEN [T |-> hold.T, blocks |-> hold.blocks, haves |-> hold.haves,
+                                 hides |-> "Dev_C36_ActiveTaskHidesBlock" \in D]
+             ELSE [T |-> EmptyQ, blocks |-> {}, haves |-> {}, hides |-> FALSE]
 NoOv  == [on |-> FALSE, E |-> {}, A |-> {}, O |-> {}, X |-> {}, Y |-> {}, pri |-> [c \in Cids |-> 0]]
 
 Min2(a, b) == IF a < b THEN a ELSE b
@@ -101,19 +123,28 @@ MergeTask(ex, n) ==
       up == ~ex.wb /\ n.wb
       h2 == IF up /\ (~h1 \/ n.have) THEN n.have ELSE h1
   IN [prio |-> Max2(ex.prio, n.prio), have |-> h2, wb |-> ex.wb \/ n.wb, sdh |-> ex.sdh]
+\* peertracker.taskHasMoreInfoThanActiveTasks + taskMerger.HasNewInfo: a (the active task of the topic, NoT: none)
+\* already answers t unless t is the first want-block or the first task that knows the block
+NewInfo(t, a) == a = NoT \/ (~a.wb /\ t.wb) \/ (~a.have /\ t.have)
+\* the new task t for c is dropped in favour of the active one.  Ideal: only if the envelope in flight really answers
+\* it (t announces no block, or the envelope carries the block / the HAVE that t would produce)
+Skip(A, c, t) == /\ ~NewInfo(t, A.T[c])
+                 /\ (A.hides \/ ~t.have \/ c \in A.blocks \/ (c \in A.haves /\ ~t.wb))
 \* ideal admission: a task of a current want is always queued/merged; any other task (DONT_HAVE for a
-\* denied CID) only while the queue is below the limit
-PushOne(Q, L, c, t) ==
-  IF Q[c] # NoT THEN [Q EXCEPT ![c] = MergeTask(Q[c], t)]
+\* denied CID) only while the queue is below the limit.  A: the peer's active tasks
+PushOne(Q, L, A, c, t) ==
+  IF Skip(A, c, t) THEN Q
+  ELSE IF Q[c] # NoT THEN [Q EXCEPT ![c] = MergeTask(Q[c], t)]
   ELSE IF L[c] # NoE \/ Cardinality(QDom(Q)) < cfg.limit THEN [Q EXCEPT ![c] = t]
   ELSE Q
 \* as built: no admission test after the cut
-PushOneRaw(Q, c, t) == IF Q[c] # NoT THEN [Q EXCEPT ![c] = MergeTask(Q[c], t)] ELSE [Q EXCEPT ![c] = t]
-RECURSIVE PushSeq(_, _, _, _)
-PushSeq(Q, L, ts, raw) ==      \* ts: sequence of <<c, task>>
+PushOneRaw(Q, A, c, t) == IF Skip(A, c, t) THEN Q
+                          ELSE IF Q[c] # NoT THEN [Q EXCEPT ![c] = MergeTask(Q[c], t)] ELSE [Q EXCEPT ![c] = t]
+RECURSIVE PushSeq(_, _, _, _, _)
+PushSeq(Q, L, A, ts, raw) ==      \* ts: sequence of <<c, task>>
   IF ts = <<>> THEN Q
-  ELSE PushSeq(IF raw THEN PushOneRaw(Q, Head(ts)[1], Head(ts)[2]) ELSE PushOne(Q, L, Head(ts)[1], Head(ts)[2]),
-               L, Tail(ts), raw)
+  ELSE PushSeq(IF raw THEN PushOneRaw(Q, A, Head(ts)[1], Head(ts)[2]) ELSE PushOne(Q, L, A, Head(ts)[1], Head(ts)[2]),
+               L, A, Tail(ts), raw)
 
 (* ---- MessageReceived, stage 1: split, (clear), filterOverflow --------------------------------- *)
 RECURSIVE FilterFold(_, _, _, _, _)
@@ -201,7 +232,7 @@ Stage2(D, s, X, Y) ==
       nh    == IF cut THEN Min2(Len(head), avail) ELSE Len(head)
       r     == IF cut THEN Min2(Cardinality(YT), Max2(0, avail - Len(head))) ELSE Cardinality(YT)
   IN [L |-> L2, G |-> G2, Q |-> Q2, head |-> SubSeq(head, 1, nh), YT |-> YT, r |-> r, raw |-> trunc,
-      oent |-> s.oent, pri |-> s.pri,
+      oent |-> s.oent, pri |-> s.pri, A |-> Act(s.p, D),
       ov |-> IF s.O = {} THEN NoOv
              ELSE [on |-> TRUE, E |-> s.E, A |-> s.A, O |-> s.O, X |-> X, Y |-> Y, pri |-> s.pri]]
 
@@ -210,7 +241,7 @@ ValidZ(t, Z) == Z \subseteq t.YT /\ Cardinality(Z) = t.r /\ HighClosed(Z, t.YT, 
 Stage3(t, Z) ==
   LET ZT == Z \cap t.YT      \* (ValidZ demands Z \subseteq YT; total anyway)
       zs == [i \in 1..Cardinality(ZT) |-> LET c == AscSeq(ZT, t.pri)[i] IN <<c, TaskOf(t.oent[c])[1]>>]
-  IN [L |-> t.L, G |-> t.G, Q |-> PushSeq(t.Q, t.L, t.head \o zs, t.raw), ov |-> t.ov]
+  IN [L |-> t.L, G |-> t.G, Q |-> PushSeq(t.Q, t.L, t.A, t.head \o zs, t.raw), ov |-> t.ov]
 
 (* ---- NotifyNewBlocks (after the block was stored) and envelope construction ------------------- *)
 AddRes(D, c) ==
@@ -218,8 +249,8 @@ AddRes(D, c) ==
      IF ledger[p][c] = NoE THEN q[p]
      ELSE LET t == [prio |-> ledger[p][c].prio, have |-> TRUE, wb |-> WB(ledger[p][c].wt, c), sdh |-> FALSE]
           IN IF "Dev_C36_QueueTruncation" \in D
-             THEN (IF Cardinality(QDom(q[p])) + 1 > cfg.limit THEN q[p] ELSE PushOneRaw(q[p], c, t))
-             ELSE PushOne(q[p], ledger[p], c, t)]
+             THEN (IF Cardinality(QDom(q[p])) + 1 > cfg.limit THEN q[p] ELSE PushOneRaw(q[p], Act(p, D), c, t))
+             ELSE PushOne(q[p], ledger[p], Act(p, D), c, t)]
 
 EnvRes(D, p) ==
   LET T == QDom(q[p])
@@ -257,7 +288,7 @@ ReceiveCore(D, p, full, ents, s, t, X, Y, Z) ==
         /\ ov'     = r.ov
         /\ dev'    = dev \cup EffRecv(D, p, full, ents, X, Y, Z, r)
         /\ out'    = NoOut
-        /\ UNCHANGED <<cfg, bs>>
+        /\ UNCHANGED <<cfg, bs, hold>>
 \* X: evicted existing wants, Y: admitted overflow wants, Z: admitted overflow wants whose task survived
 Receive(D, p, full, ents, X, Y, Z) ==
   LET s == Stage1(D, p, full, ents)
@@ -270,14 +301,44 @@ AddBlock(D, c) ==
      IN /\ q' = r
         /\ dev' = dev \cup (IF D \subseteq dev \/ AddRes({}, c) = r THEN {} ELSE {d \in D \ dev : AddRes(D \ {d}, c) # r})
   /\ out' = NoOut /\ ov' = NoOv
-  /\ UNCHANGED <<cfg, ledger, ghost>>
+  /\ UNCHANGED <<cfg, ledger, ghost, hold>>
 
 RemoveBlock(c) ==
   /\ bs' = bs \ {c}
   /\ out' = NoOut /\ ov' = NoOv
-  /\ UNCHANGED <<cfg, ledger, ghost, q, dev>>
+  /\ UNCHANGED <<cfg, ledger, ghost, q, dev, hold>>
 
+\* nextEnvelope: pop the peer's tasks, build the message; the ledger is not touched.  An empty message is dropped
+\* at once (TasksDone), otherwise the popped tasks stay active until MsgSent
+NextEnv(D, p) ==
+  /\ hold.p = 0 /\ QDom(q[p]) # {}
+  /\ LET r == EnvRes(D, p)
+     IN /\ out' = r.out
+        /\ hold' = IF r.blocks \cup r.haves \cup r.dhs = {} THEN NoHold
+                   ELSE [p |-> p, T |-> q[p], blocks |-> r.blocks, haves |-> r.haves]
+        /\ dev' = dev \cup (IF D \subseteq dev \/ EnvRes({}, p) = r THEN {}
+                            ELSE {d \in D \ dev : LET r2 == EnvRes(D \ {d}, p)
+                                                  IN <<r2.blocks, r2.haves, r2.dhs>> # <<r.blocks, r.haves, r.dhs>>})
+  /\ q' = [q EXCEPT ![p] = EmptyQ]
+  /\ ov' = NoOv
+  /\ UNCHANGED <<cfg, bs, ledger, ghost>>
+\* Engine.MessageSent + Envelope.Sent for the envelope in flight: every sent block takes its want off the list, a
+\* sent HAVE only a want that is (still / again) a want-have NOW; the active tasks are done
+\* (ideal: a HAVE does not settle a want for which a block task is still queued)
+SentGone(D) == hold.blocks \cup {c \in hold.haves : /\ View(hold.p)[c].wt = "H"
+                                                    /\ \/ "Dev_C36_SentHaveDropsOwedBlock" \in D
+                                                       \/ ~(q[hold.p][c] # NoT /\ q[hold.p][c].wb)}
+MsgSent(D) ==
+  /\ hold.p # 0
+  /\ ledger' = [ledger EXCEPT ![hold.p] = [c \in Cids |-> IF c \in SentGone(D) THEN NoE ELSE ledger[hold.p][c]]]
+  /\ ghost'  = [ghost EXCEPT ![hold.p] = [c \in Cids |-> IF c \in SentGone(D) THEN NoE ELSE ghost[hold.p][c]]]
+  /\ dev' = dev \cup (IF SentGone(D) = SentGone({}) THEN {} ELSE D \cap SentDevs)
+  /\ hold' = NoHold /\ out' = NoOut /\ ov' = NoOv
+  /\ UNCHANGED <<cfg, bs, q>>
+
+\* both calls back to back (nothing falls into the window)
 Envelope(D, p) ==
+  /\ hold.p = 0
   /\ QDom(q[p]) # {}
   /\ LET r == EnvRes(D, p)
      IN /\ ledger' = [ledger EXCEPT ![p] = r.L]
@@ -286,7 +347,7 @@ Envelope(D, p) ==
         /\ dev' = dev \cup (IF D \subseteq dev \/ EnvRes({}, p) = r THEN {} ELSE {d \in D \ dev : EnvRes(D \ {d}, p) # r})
   /\ q' = [q EXCEPT ![p] = EmptyQ]
   /\ ov' = NoOv
-  /\ UNCHANGED <<cfg, bs>>
+  /\ UNCHANGED <<cfg, bs, hold>>
 
 (* ---- model-checking universe ------------------------------------------------------------------- *)
 CONSTANTS Cfgs,      \* set of configurations explored by Init
@@ -297,7 +358,7 @@ Init == /\ cfg \in Cfgs
         /\ bs \in SUBSET Cids
         /\ ledger = [p \in Peers |-> EmptyL] /\ ghost = [p \in Peers |-> EmptyL]
         /\ q = [p \in Peers |-> EmptyQ]
-        /\ out = NoOut /\ ov = NoOv /\ dev = {}
+        /\ out = NoOut /\ ov = NoOv /\ dev = {} /\ hold = NoHold
 
 \* all admissible tie choices of one message
 ReceiveEx(D, p, full, ents) ==
@@ -311,10 +372,13 @@ ReceiveAny == \E p \in Peers, full \in BOOLEAN, ents \in Msgs, D \in SUBSET (Dev
 AddAny     == \E c \in Cids, D \in SUBSET (Devs \cap AddDevs) : AddBlock(D, c)
 RemoveAny  == \E c \in Cids : RemoveBlock(c)
 EnvelopeOf(p) == \E D \in SUBSET (Devs \cap EnvDevs) : Envelope(D, p)
-Next == ReceiveAny \/ AddAny \/ RemoveAny \/ \E p \in Peers : EnvelopeOf(p)
+NextEnvOf(p)  == \E D \in SUBSET (Devs \cap EnvDevs) : NextEnv(D, p)
+\* (Envelope(D, p) = NextEnv(D, p) ; MsgSent({}) with nothing in between: covered by the two halves)
+MsgSentAny == \E D \in SUBSET (Devs \cap SentDevs) : MsgSent(D)
+Next == ReceiveAny \/ AddAny \/ RemoveAny \/ (\E p \in Peers : NextEnvOf(p)) \/ MsgSentAny
 
 Spec     == Init /\ [][Next]_vars
-FairSpec == Spec /\ \A p \in Peers : WF_vars(EnvelopeOf(p))
+FairSpec == Spec /\ (\A p \in Peers : WF_vars(NextEnvOf(p))) /\ WF_vars(MsgSentAny)
 
 (* ---- the property ------------------------------------------------------------------------------ *)
 TypeOK ==
@@ -335,10 +399,15 @@ LedgerBounded == \A p \in Peers : Cardinality(Dom(ledger[p]) \cup Dom(ghost[p]))
 NoGhostWhenIdeal == Ideal => \A p \in Peers : Dom(ghost[p]) = {}
 \* tasks are queued only for current wants or for denied CIDs, and the queue is bounded
 QueueBounded == Ideal => \A p \in Peers : Cardinality(QDom(q[p])) <= 2 * cfg.limit
-\* every current want whose block is stored has a queued task that will deliver it
-RawPresentWantHasTask == \A p \in Peers : \A c \in Dom(ledger[p]) : c \in bs => (q[p][c] # NoT /\ q[p][c].have)
-PresentWantHasTask ==
-  Ideal => \A p \in Peers : \A c \in Dom(ledger[p]) : c \in bs => (q[p][c] # NoT /\ q[p][c].have)
+\* every current want whose block is stored has a queued task that will deliver it, or its answer is in flight
+InFlight(p, c) == hold.p = p /\ (c \in hold.blocks \/ (c \in hold.haves /\ ledger[p][c].wt = "H"))
+RawPresentWantHasTask == \A p \in Peers : \A c \in Dom(ledger[p]) : c \in bs => (q[p][c] # NoT /\ q[p][c].have) \/ InFlight(p, c)
+PresentWantHasTask == Ideal => RawPresentWantHasTask
+\* the window never loses an upgrade: a want-block on the list whose block is stored is owed the BLOCK (a queued block
+\* task or the block in flight), a HAVE in flight does not settle it
+UpgradeKeepsBlockTask ==
+  Ideal => \A p \in Peers : \A c \in Dom(ledger[p]) :
+             (c \in bs /\ ledger[p][c].wt = "B") => ((q[p][c] # NoT /\ q[p][c].wb) \/ (hold.p = p /\ c \in hold.blocks))
 \* after an overflow the ledger holds the best wants: wants without a local block go first, then the
 \* least important ones, each present want only in favour of a newcomer that is at least as important,
 \* and a newcomer is turned away only if every retained want is stored locally and more important
@@ -357,6 +426,9 @@ EvictionOrder ==
 
 \* liveness (FairSpec, ideal): a want whose block is stored is eventually answered (or withdrawn/evicted,
 \* or the block disappears)
+\* (answered = an envelope with its block or HAVE has just been built; with the window a peer may re-state the want
+\*  before MessageSent, so "the entry disappears" would demand more than an answer)
 EveryAcceptedWantAnswered ==
-  \A p \in Peers, c \in Cids : (ledger[p][c] # NoE /\ c \in bs) ~> (ledger[p][c] = NoE \/ c \notin bs)
+  \A p \in Peers, c \in Cids : (ledger[p][c] # NoE /\ c \in bs) ~> (\/ ledger[p][c] = NoE \/ c \notin bs
+                                                                   \/ (out.p = p /\ c \in out.blocks \cup out.haves))
 =============================================================================
